@@ -539,8 +539,8 @@ def _templates_for(T, N, suffix, quick_default):
         [c_pos("A", "B", (0,), (0.0,), (0.0,), margins=(R("m", -1.0, 1.0),)), c_grid("A", (0,), ("-",), (I("ga", 0, 2),)), c_grid("B", (0,), ("-",), (I("gb", 0, 1),)),
          c_grid("B", (0,), ("+",), (I("gb1", 3, 4),))])
     add("overdetermined-pos-vs-coords-pinned", [obj("A", gshape=(2, None, None)), obj("B", gshape=(2, None, None))],
-        [c_pos("A", "B", (0,), (0.0,), (0.0,), margins=(R("m", -1.0, 1.0),)), c_grid("A", (0,), ("-",), (I("ga", 0, 2),)), c_grid("A", (0,), ("+",), (I("ga1", 2, 4),)),
-         c_grid("B", (0,), ("-",), (I("gb", 1, 3),)), c_grid("B", (0,), ("+",), (I("gb1", 3, 5),))], pinned=["A", "B"])
+        [c_pos("A", "B", (0,), (0.0,), (0.0,), margins=(R("m", -1.0, 1.0),)), c_grid("A", (0,), ("-",), (I("ga", 0, 1),)), c_grid("A", (0,), ("+",), (I("ga1", 2, 3),)),
+         c_grid("B", (0,), ("-",), (I("gb", 1, 2),)), c_grid("B", (0,), ("+",), (I("gb1", 3, 4),))], pinned=["A", "B"])
     # 14 declared grid shape next to both grid coordinates
     add("overdetermined-shape-vs-coords", [obj("A", gshape=(2, None, None))], [c_grid("A", (0,), ("-",), (I("g0", 0, N),)), c_grid("A", (0,), ("+",), (I("g1", 0, N),))])
     add("overdetermined-shape-vs-coords-pinned", [obj("A", gshape=(2, None, None))],
@@ -572,8 +572,8 @@ def _templates_for(T, N, suffix, quick_default):
     #     over axes (0, 1); its y size is declared, its x size only follows from a size constraint listed later, so axis 1 of that
     #     constraint resolves one pass before axis 0.  B sits against S along x by a constraint listed before both.
     add("multiaxis-staged", [obj("S", gshape=(None, 2, None)), obj("B", gshape=(1, 1, None))],
-        [c_pos("B", "S", (0,), (-1.0,), (1.0,), margins=(R("m", -0.5, 0.5),)), c_pos("S", "V", (0, 1), (0.0, 0.0), (0.0, 0.0), margins=(R("m1", -0.5, 0.5), R("m2", -0.5, 0.5))),
-         c_size("S", "V", (0,), props=(R("pr", 0.25, 0.75),))], shape=(N, 4, 3))
+        [c_pos("B", "S", (0,), (-1.0,), (1.0,), margins=(R("m", -0.5, 0.5),)), c_pos("S", "V", (0, 1), (0.0, 0.0), (0.0, 0.0), margins=(R("m1", -0.5, 0.5), R("m2", -0.25, 0.25))),
+         c_size("S", "V", (0,), props=(R("pr", 0.3, 0.6),))], shape=(N, 4, 3))
     # the same with B also centred on the volume along y (two-axis constraint) and S positioned on all three axes (the usual scene layout)
     add("multiaxis-staged3", [obj("S", gshape=(None, 2, 1)), obj("B", gshape=(1, 1, 1))],
         [c_pos("B", "S", (0,), (-1.0,), (1.0,), margins=(R("m", -0.5, 0.5),)), c_pos("B", "V", (1, 2), (0.0, 0.0), (0.0, 0.0)),
